@@ -76,10 +76,19 @@ func ResetLog() {
 // Getpagesize .
 func Getpagesize() int { return syscall.Getpagesize() }
 
+// MprotectDeny, when set, decides which protection requests the environment refuses with EACCES
+// (a W^X policy refuses PROT_WRITE|PROT_EXEC); refused requests never reach the kernel.
+var MprotectDeny func(prot int) bool
+
 // Mprotect forwards to the kernel between two scheduling points.
 func Mprotect(b []byte, prot int) error {
 	sched.Point("syscall.Mprotect:request", nil)
-	err := syscall.Mprotect(b, prot)
+	var err error
+	if MprotectDeny != nil && MprotectDeny(prot) {
+		err = syscall.EACCES
+	} else {
+		err = syscall.Mprotect(b, prot)
+	}
 	if Logging && len(b) > 0 {
 		addr := uintptr(unsafe.Pointer(&b[0]))
 		ProtLog = append(ProtLog, ProtCall{addr, len(b), prot, sched.Self(), err != nil})
@@ -135,7 +144,11 @@ func Syscall(trap, a1, a2, a3 uintptr) (r1, r2 uintptr, err Errno) {
 		return syscall.Syscall(trap, a1, a2, a3)
 	}
 	sched.Point("syscall.Syscall(SYS_MPROTECT):request", nil)
-	r1, r2, err = syscall.Syscall(trap, a1, a2, a3)
+	if MprotectDeny != nil && MprotectDeny(int(a3)) {
+		r1, err = ^uintptr(0), syscall.EACCES
+	} else {
+		r1, r2, err = syscall.Syscall(trap, a1, a2, a3)
+	}
 	if Logging && a2 > 0 {
 		ProtLog = append(ProtLog, ProtCall{a1, int(a2), int(a3), sched.Self(), err != 0})
 		if err == 0 {
